@@ -3,6 +3,7 @@ package sim
 import (
 	"berty.tech/go-ipfs-log/entry"
 	"berty.tech/go-orbit-db/stores/operation"
+	"context"
 	"fmt"
 	cid "github.com/ipfs/go-cid"
 	"sort"
@@ -16,7 +17,7 @@ import (
 
 func init() {
 	Register(&Scenario{Prop: "C05", Name: "crash-prefixes", Run: scenC05, SoftParks: true, Weight: 3,
-		Rule: "node T with 0-2 feeder peers, one database (type drawn per run); 3-10 (thorough 3-24) writes on T (single, or bursts of 2-3 concurrent writers released one persistence step at a time while replication goes on) and on feeders replicated into T under reorder/dup/delay, optionally a clean restart of T mid-history (one in three of them without Load: the application writes on the reopened store as it is, and loads later or never); every acknowledgement (write call returned; EventReplicated received) is stamped with T's persistence-effect count; then EVERY prefix of T's effect log (block puts, cache puts, keystore puts) is materialised as a durable image and recovered in isolation (offline block store) by NewOrbitDB + Open + Load(-1); oracle per prefix: recovered log contains every entry acknowledged at or before the prefix, only entries really written, is closed under next, visible state equals LWW replay of the recovered log, identity equals the pre-crash one once the first NewOrbitDB had returned, and a new write succeeds; one evaluation = one history with all its prefixes; non-trivial = >=1 prefix strictly between two acknowledgements and (with feeders) >=1 replicated batch acknowledged"})
+		Rule: "node T with 0-2 feeder peers, one database (type drawn per run); 3-10 (thorough 3-24) writes on T (single, or bursts of 2-3 concurrent writers released one persistence step at a time while replication goes on) and on feeders replicated into T under reorder/dup/delay, optionally a clean restart of T mid-history (one in three of them without Load: the application writes on the reopened store as it is, and loads later or never); every acknowledgement (write call returned; EventReplicated received) is stamped with T's persistence-effect count; then EVERY prefix of T's effect log (block puts, cache puts, keystore puts) is materialised as a durable image and recovered in isolation (offline block store) by NewOrbitDB + Open + Load(-1); oracle per prefix: recovered log contains every entry acknowledged at or before the prefix, only entries really written, is closed under next, visible state equals LWW replay of the recovered log, identity equals the pre-crash one once the first NewOrbitDB had returned, and a new write succeeds; one evaluation = one history with all its prefixes; non-trivial = >=1 prefix strictly between two acknowledgements and (with feeders) >=1 replicated batch acknowledged; a third of the reopenings without a load do call Load and give it up at once (context already cancelled) before they write"})
 }
 
 type c05ack struct {
@@ -105,6 +106,19 @@ func scenC05(k *K) {
 						k.Failf("C05/restart-load-error", "clean restart of T failed: %v", err)
 					}
 					watch()
+					if k.C.Chance(1, 3) {
+						// the application does call Load, and gives it up at once (its context is
+						// over before the cached heads have been fetched): whatever the call
+						// says, nothing of the history is in memory, and the writes that follow
+						// must not cost what is on the disk
+						st := c.Stores[0]
+						k.Do(0, "load given up at once", 100, func() (interface{}, error) {
+							ctx, cancel := context.WithCancel(context.Background())
+							cancel()
+							return nil, st.Load(WithOfflineReads(ctx), -1)
+						})
+						k.W.Stat("load-given-up-before-write-on-reopened-store")
+					}
 					for j, m := 0, k.C.Range(1, 2); j < m; j++ {
 						if wr := c.RandomWrite(0); wr != nil {
 							k.W.mu.Lock()
